@@ -3542,13 +3542,14 @@ impl DateTimeRound {
         }
 
         let time_nanos = dt.time().to_nanosecond();
-        let sign = t::NoUnits128::rfrom(dt.date().year_ranged().signum());
         let time_rounded = self.mode.round_by_unit_in_nanoseconds(
             time_nanos,
             self.smallest,
             increment,
         );
-        let days = sign * time_rounded.div_ceil(t::NANOS_PER_CIVIL_DAY);
+        // N.B. The number of days to carry does not depend on the sign of
+        // the year: rounding the time up to 24 hours is always the next day.
+        let days = time_rounded.div_ceil(t::NANOS_PER_CIVIL_DAY);
         let time_nanos = time_rounded.rem_ceil(t::NANOS_PER_CIVIL_DAY);
         let time = Time::from_nanosecond(time_nanos.rinto());
 
